@@ -17,13 +17,13 @@ type cellKey struct {
 }
 
 type State struct {
-	reach Term
-	heaps map[string]Term
-	cells map[cellKey]Term
-	alloc Term
-	ghost map[string]Term
+	reach  Term
+	heaps  map[string]Term
+	cells  map[cellKey]Term
+	alloc  Term
+	ghost  map[string]Term
 	defer_ []*deferEntry
-	dead  bool
+	dead   bool
 }
 
 type deferEntry struct {
